@@ -149,9 +149,13 @@ class Machine:
             self.flag("C06.preempt_flag", f"{pre} has preempt=False but evicted {victim}", "C06.preempt_flag")
         if len(self.users) < self.cap:
             self.flag("C06.preempt_needless", f"{victim} evicted although a slot was free", "C06.preempt_needless")
-        worst = max(r.key() for r in self.users)
-        if victim.key() != worst:
-            self.flag("C06.preempt_worst", f"evicted {victim} although a worse-ranked user exists", "C06.preempt_worst")
+        worst = max(self.users, key=lambda r: r.rank(False))
+        if victim is not worst:
+            tie = victim.key() == worst.key()
+            self.flag("C06.preempt_worst", f"evicted {victim} although {worst} ranks worse (priority, request time, preempting-first, "
+                                           "arrival)", "C06.preempt_worst" + ("/tie" if tie else ""))
+        if sum(1 for r in self.users if r.key() == worst.key()) >= 2:
+            self.bump("eviction_among_equal_worst_users")
         if not (victim.key() > pre.key()):
             self.flag("C06.preempt_strict", f"{pre} (key {pre.key()}) evicted {victim} (key {victim.key()}) which does not rank "
                                             "strictly worse", "C06.preempt_strict")
@@ -449,8 +453,9 @@ PROP = Property(
         Facet("PriorityResource", strategy_for("PriorityResource"), run_case, quick=500, thorough=4000,
               essential=["grant_while_others_wait", "cancel_head", "release_queue", "coinciding_ops"]),
         Facet("PreemptiveResource", strategy_for("PreemptiveResource"), run_case, quick=700, thorough=5000,
-              essential=["eviction", "equal_key_preempt_refused", "preempted_delivered", "grant_while_others_wait"]),
+              essential=["eviction", "equal_key_preempt_refused", "preempted_delivered", "grant_while_others_wait",
+                         "eviction_among_equal_worst_users"]),
     ],
     assumptions=["each actor holds or awaits at most one request at a time (statement's precondition)",
-                 "actors never terminate while holding", "which of several equal-worst users is evicted is not judged"],
+                 "actors never terminate while holding"],
 )
